@@ -275,7 +275,8 @@ def neutral_header_lists(seed, maxn):
     F = lambda t, i, *st: ('f', t, i) + tuple(st)
     items = [F('a', 1), F('a', 2, 'a[N]'), F('a', 5), ('named', 'a', n1, 'attr'), ('named', 'a', n2, 'dq'), ('named', 'a', n3, 'sq'), ('NR',), ('NF',),
              ('cat', F('a', 1), ('lit', 'x')), ('lit', 'x,[y]"z('), ('list', F('a', 1), ('list', F('a', 2), F('a', 1))), ('star', None), ('star', 'a'),
-             ('alias', ('cat', F('a', 1), ('lit', 'y')), 'Tot', 'AS'), ('alias', F('a', 2), 'low_1', 'as'), F('b', 1), ('named', 'b', 'jval', 'attr'), ('star', 'b')]
+             ('alias', ('cat', F('a', 1), ('lit', 'y')), 'Tot', 'AS'), ('alias', F('a', 2), 'low_1', 'as'), F('b', 1), ('named', 'b', 'jval', 'attr'), ('star', 'b'),
+             ('alias', ('upper', F('a', 1)), 'up', 'AS'), ('alias', ('upper', ('cat', F('a', 2), F('a', 1))), 'both_up', 'as')]
     return items, [n1, n2, n3]
 
 
